@@ -316,8 +316,29 @@ class TermDomain(Domain):
             r = it.std_call(name, args, store)
             if r is not None:
                 return r
-            return [(T("call:" + name, *vals), store)]
+            return [(T("call:" + name, *vals), self.mutated_by(it, name, args, vals, store, term))]
         return None
+
+    def mutated_by(self, it, name, args, vals, store, term):
+        """An uninterpreted callee may write through a `&mut` it is given: a referent whose value is known (an aggregate,
+        a sequence, a constant) is no longer that value afterwards.  Opaque referents (symbols, terms) stay as they are:
+        nothing is known about them before either."""
+        body = getattr(it, "_cur_body", None)
+        if body is None or term is None:
+            return store
+        from .stdmodels import Seq
+        for i, a in enumerate(args):
+            if not isinstance(a, Ref) or i >= len(term["args"]):
+                continue
+            o = term["args"][i]
+            if o["k"] not in ("copy", "move") or o["place"]["proj"]:
+                continue
+            if not body.local_ty(o["place"]["local"]).replace("& mut", "&mut").startswith("&mut"):
+                continue
+            old = vals[i]
+            if isinstance(old, (Seq, Const)) or (isinstance(old, Agg) and old.kind != "closure"):
+                store = it.write_ref(store, a, T("mutated:" + name, old))
+        return store
 
     def num_call(self, it, ty, m, trait, args, vals, store):
         a = vals[0] if vals else None
